@@ -301,6 +301,10 @@ class MTVRPEnv(RL4COEnvBase):
             == sorted_pi[:, -n_loc:]
         ).all() and (sorted_pi[:, :-n_loc] == 0).all(), "Invalid tour"
 
+        # The last route returns to the depot even if the action sequence does not say so explicitly:
+        # append the final depot visit so that this return is checked like any other (limit, depot closing time)
+        actions = torch.cat((actions, torch.zeros_like(actions[:, :1])), dim=1)
+
         # Distance limits (L)
         assert (td["distance_limit"] >= 0).all(), "Distance limits must be non-negative."
 
